@@ -392,13 +392,19 @@ func genPath(r *rng.R) (*canvas.Path, string) {
 		fam = "print-arc-chord"
 	}
 	n := r.Range(1, 14)
+	before := canvas.Point{} // the position before the previous command (a stale current point in a printer would be this one)
 	for k := 0; k < n; k++ {
 		pos := p.Pos()
+		last := pos
 		switch c := r.Intn(20); {
 		case c < 3:
 			p.MoveTo(coord(), coord())
 		case c < 9:
-			switch r.Intn(4) {
+			switch r.Intn(6) {
+			case 4:
+				p.LineTo(before.X, coord()) // shares x with the start of the previous segment, not with its end
+			case 5:
+				p.LineTo(coord(), before.Y) // shares y with the start of the previous segment
 			case 0:
 				p.LineTo(pos.X, coord()) // vertical: V
 			case 1:
@@ -424,6 +430,7 @@ func genPath(r *rng.R) (*canvas.Path, string) {
 		default:
 			p.Close()
 		}
+		before = last
 	}
 	return p, fam
 }
